@@ -162,6 +162,70 @@ def errno_rule(chk, prog, rule="ERRNO"):
     chk.ok(rule, "%s/inventory" % rule, "src/", "errno reads in the library: %d, each preceded by a clear in the same function" % n)
 
 
+def setter_history_rule(chk, prog, setters, rule="HIST"):
+    """what a setter does is a function of its arguments: it does not read the result state of the instance (position, buffer,
+    its grown length, the finalized flag), which depends on everything assembled before"""
+    n = 0
+    for fn in sorted(s_ for s_ in setters if s_ != "asm_create_instance"):
+        f = prog.functions.get(fn)
+        if f is None:
+            continue
+        n += 1
+        reads = sorted({a.field for a in EFF.accesses(prog.body(f)) if a.owner == "assemblyline" and a.ctx in ("r", "rw") and
+                        a.field in PL.INSTANCE_FIELDS_RESULT})
+        chk.require(not reads, rule, "%s/%s" % (rule, fn), loc_str(f),
+                    "%s does not read the result state of the instance (its effect cannot depend on what was assembled before)" % fn,
+                    "reads %s" % reads)
+    # the offset setter belongs to the same family
+    f = prog.functions.get("asm_set_offset")
+    if f is not None:
+        n += 1
+        reads = sorted({a.field for a in EFF.accesses(prog.body(f)) if a.owner == "assemblyline" and a.ctx in ("r", "rw") and
+                        a.field in ("buffer_len", "buffer", "finalized")})
+        chk.require(not reads, rule, "%s/asm_set_offset" % rule, loc_str(f),
+                    "asm_set_offset does not look at the buffer or its (grown) length", "reads %s" % reads)
+    chk.floor("setters", n, 6)
+
+
+def narrow_store_rule(chk, prog, rule="NARROW"):
+    """a configuration value is stored into the instance without losing bits: the field is at least as wide as the integer
+    that is assigned to it (a size_t chunk size stored into an 8-bit field is a different chunk size)"""
+    from valib.bytelen import SIZES
+    n = 0
+
+    def width(qt):
+        qt = qt.replace("const ", "").replace("volatile ", "").strip()
+        td = prog.typedefs.get(qt)
+        if td is not None and qt not in SIZES:
+            qt = qtype(td).strip()
+        if qt.startswith("enum ") or qt in prog.typedefs and "enum" in qtype(prog.typedefs[qt]):
+            return 4
+        return SIZES.get(qt)
+    for fn, f in sorted(prog.lib_functions().items()):
+        for m in walk(prog.body(f)):
+            if m.get("kind") != "BinaryOperator" or m.get("opcode") != "=":
+                continue
+            l = strip(kids(m)[0], casts=True)
+            if l.get("kind") != "MemberExpr" or EFF.owner_field(l)[0] != "assemblyline" or l.get("name") not in PL.INSTANCE_FIELDS_CONFIG:
+                continue
+            if l.get("isBitfield") or "bool" in qtype(l) or "_Bool" in qtype(l):
+                continue
+            r = kids(m)[1]
+            inner = r
+            while inner.get("kind") in ("ImplicitCastExpr", "ParenExpr"):
+                inner = kids(inner)[0]
+            if ConstEval(prog).try_eval(strip(r, casts=True)) is not None:
+                continue
+            wl, wr = width(qtype(l)), width(qtype(inner))
+            if wl is None or wr is None:
+                continue
+            n += 1
+            chk.require(wl >= wr or inner.get("kind") == "MemberExpr", rule, "%s/%s/%s" % (rule, fn, l.get("name")), loc_str(m),
+                        "the field %s (%d bytes) holds every value of the %d-byte expression stored into it" % (l.get("name"), wl, wr),
+                        "%s = %s narrows %s to %s" % (expr_str(l), expr_str(strip(r, casts=True)), qtype(inner), qtype(l)))
+    chk.floor("stores of variable values into configuration fields", n, 2)
+
+
 def run(chk, prog, tier):
     roles = PL.Roles(prog)
     chk.analysed["roles"] = roles.describe()
@@ -243,6 +307,8 @@ def run(chk, prog, tier):
     n = C17.atomic_rule(chk, prog, [roles.room_check])
     chk.floor("failing returns of the room check", n, 2)
     errno_rule(chk, prog)
+    setter_history_rule(chk, prog, setters)
+    narrow_store_rule(chk, prog)
     # emitted bytes do not depend on what an earlier call left in the buffer: every encoder function writes every byte below
     # the length it returns (symbolic write-coverage), and never reads its destination
     from valib import cover as CV
